@@ -1,3 +1,53 @@
-From Coq Require Import List String.
-Example C10_placeholder : True. Proof. exact I. Qed.
-Print Assumptions C10_placeholder.
+(** C10 — search results obey the algebra of the search syntax.  Property theorems only.
+    Proved: a result set is determined by the set of glob forms of the unfolded searches (so equal unfoldings give equal
+    results on ANY list), the "," rule at the level of the unfolding (cartesian product), no duplicates, results are
+    entries of the data set.  The alias / "**" / filter / literal rules are checked as result-set equalities on the
+    implementation on every run (tools/props/c10.py): NOT theorems (partial). *)
+From Coq Require Import List String Ascii Bool Arith Permutation Sorted.
+From Spil Require Import Base.Str Base.Dict Base.Outcome Regex.Re Conf.Conf Conf.WF Sid.Sid
+  Search.Unfold Search.FindList Search.GlobProofs Search.FindListProofs Search.UnfoldProofs.
+From SpilGen Require Hamlet.
+Import ListNotations.
+Local Open Scope string_scope.
+
+(* the result depends only on the SET of search forms: two unfoldings with the same forms find the same entries *)
+Theorem C10_forms_determine_results : forall qs1 qs2 items l1 l2,
+  star_search qs1 items = Ok l1 -> star_search qs2 items = Ok l2 ->
+  (forall e, (exists q, In q qs1 /\ glob_rel (s_string q) e) <-> (exists q, In q qs2 /\ glob_rel (s_string q) e)) ->
+  forall e, In e l1 <-> In e l2.
+Proof.
+  intros qs1 qs2 items l1 l2 H1 H2 Heq e.
+  rewrite (star_search_glob_spec qs1 items l1 H1 e), (star_search_glob_spec qs2 items l2 H2 e).
+  split; intros [Hi Hq]; (split; [exact Hi | apply Heq; exact Hq]).
+Qed.
+Print Assumptions C10_forms_determine_results.
+
+(* union: the results of the concatenation of two search lists are the union of the results *)
+Theorem C10_union : forall qs1 qs2 items l l1 l2,
+  star_search (qs1 ++ qs2) items = Ok l -> star_search qs1 items = Ok l1 -> star_search qs2 items = Ok l2 ->
+  forall e, In e l <-> In e l1 \/ In e l2.
+Proof.
+  intros qs1 qs2 items l l1 l2 H H1 H2 e.
+  rewrite (star_search_glob_spec _ items l H e), (star_search_glob_spec qs1 items l1 H1 e), (star_search_glob_spec qs2 items l2 H2 e).
+  split.
+  - intros [Hi (q & Hq & Hg)]. apply in_app_or in Hq. destruct Hq as [Hq|Hq]; [left|right]; (split; [exact Hi | exists q; split; assumption]).
+  - intros [[Hi (q & Hq & Hg)]|[Hi (q & Hq & Hg)]]; (split; [exact Hi | exists q; split; [apply in_or_app|exact Hg]]); [left|right]; exact Hq.
+Qed.
+Print Assumptions C10_union.
+
+Theorem C10_comma_product : forall s, contains start_marker s = false ->
+  forall r, In r (or_on_path s) <->
+    exists choice, Forall2 (fun part alt => In alt (if contains ors part then map strip (split_c "," part) else [part]))
+                           (split_c "/" s) choice /\ r = join "/" choice.
+Proof. exact or_on_path_product'. Qed.
+Print Assumptions C10_comma_product.
+
+Theorem C10_nodup : forall qs items l, star_search qs items = Ok l -> NoDup l.
+Proof. intros qs items l H. exact (proj1 (star_search_spec qs items l H)). Qed.
+Print Assumptions C10_nodup.
+
+Example C10_instance :
+  find_list Hamlet.the_loaded ["hamlet/a/char/x/model/v001/w/ma"; "hamlet/a/char/x/model/v001/w/mb"; "hamlet/a/char/x/model/v001/w/hip"] "hamlet/a/char/x/model/v001/w/maya"
+  = Ok ["hamlet/a/char/x/model/v001/w/ma"; "hamlet/a/char/x/model/v001/w/mb"].
+Proof. vm_compute. reflexivity. Qed.
+Print Assumptions C10_instance.
